@@ -94,7 +94,7 @@ def harness(eng, sp):
     from job_shop_lib.dispatching import Dispatcher
 
     inst, desc = D.build_instance(eng, sp["shape"], sp["machines"], dmin=1)
-    if eng.mode == "conc" and eng.values.get("__final__"):
+    if eng.mode == "conc" and (eng.values.get("__final__") or not eng.script_mode or not eng.script):
         f_best, f_hist = brute(inst, desc, _filter())
         u_best, u_hist = brute(inst, desc, None)
         claimed = eng.values.get("__better_makespan__")
